@@ -426,4 +426,52 @@ theorem abs_nodup {m : VLog} (hi : Inv m) : ((abs m).cells.map (·.key)).Nodup :
     simp [abs, List.map_map, Function.comp_def, absNode]
   rw [this]; exact hi.nodup
 
+theorem getD_key (m : VLog) (k : Bytes) : ((m.findNode k).getD (VLog.freshNode k)).key = k := by
+  cases h : m.findNode k with
+  | none => rfl
+  | some n =>
+    have := List.find?_some h
+    simpa using this
+
+theorem getD_mem_or (m : VLog) (k : Bytes) :
+    ((m.findNode k).getD (VLog.freshNode k)) ∈ m.nodes ∨
+      (m.findNode k = none ∧ (m.findNode k).getD (VLog.freshNode k) = VLog.freshNode k) := by
+  cases h : m.findNode k with
+  | none => right; simp
+  | some n => left; exact List.mem_of_find?_eq_some h
+
+/-- structural part of the invariant after updating the node of `k` and replacing the log -/
+theorem upd_struct {m : VLog} (hi : Inv m) (k : Bytes) (f : Node → Node) (log' : List Entry)
+    (hf : ∀ n, (f n).key = n.key)
+    (hother : ∀ k', k' ≠ k → versionsOf k' log' = versionsOf k' m.log)
+    (hvk : (f ((m.findNode k).getD (VLog.freshNode k))).vptr = topAddr (versionsOf k log'))
+    (hown : ∀ e ∈ log', e.key = k ∨ ∃ n ∈ m.nodes, n.key = e.key)
+    (hdel : (f ((m.findNode k).getD (VLog.freshNode k))).deleted = true → (f ((m.findNode k).getD (VLog.freshNode k))).vptr = 0) :
+    (∀ n ∈ VLog.upsertNode m.nodes k f, n.vptr = topAddr (versionsOf n.key log')) ∧
+    (∀ e ∈ log', ∃ n ∈ VLog.upsertNode m.nodes k f, n.key = e.key) ∧
+    ((VLog.upsertNode m.nodes k f).map (·.key)).Nodup ∧
+    (∀ n ∈ VLog.upsertNode m.nodes k f, n.deleted = true → n.vptr = 0) := by
+  have hkeys := upsertNode_keys m.nodes k f hf
+  have hkey0 : (f ((m.findNode k).getD (VLog.freshNode k))).key = k := by rw [hf]; exact getD_key m k
+  refine ⟨?_, ?_, ?_, ?_⟩
+  · intro n hn
+    rcases mem_upsertNode m.nodes hi.nodup k f n hn with ⟨h1, h2⟩ | h
+    · rw [hother n.key h2]; exact hi.vptr n h1
+    · have : n.key = k := by rw [h]; exact hkey0
+      rw [this, h]; exact hvk
+  · intro e he
+    have hex : ∀ key, key ∈ (VLog.ensureNode m.nodes k).map (·.key) → ∃ n ∈ VLog.upsertNode m.nodes k f, n.key = key := by
+      intro key hkey
+      rw [← hkeys] at hkey
+      obtain ⟨n, hn, hnk⟩ := List.mem_map.mp hkey
+      exact ⟨n, hn, hnk⟩
+    rcases hown e he with h | ⟨n, hn, hnk⟩
+    · rw [h]; exact hex k (key_mem_ensureNode m.nodes k)
+    · rw [← hnk]; exact hex n.key (mem_ensureNode_keys m.nodes k n hn)
+  · rw [hkeys]; exact ensureNode_nodup m.nodes hi.nodup k
+  · intro n hn hd
+    rcases mem_upsertNode m.nodes hi.nodup k f n hn with ⟨h1, _⟩ | h
+    · exact hi.del n h1 hd
+    · rw [h] at hd ⊢; exact hdel hd
+
 end CGV.MemBuf
